@@ -71,6 +71,16 @@ func checkIngressRefusals(c *Ctx, rule string) {
 		c.Fail(rule, "anchor:ingress.ServeHTTP", "", "anchor not found")
 		return
 	}
+	// helpers of the package are part of the handler, except the header-size step, which the rule names by its role
+	// (a function of the package returning the stored header map and a verdict)
+	isHeaderStep := func(cf *ssa.Function) bool {
+		if cf == nil || cf.Pkg == nil || cf.Pkg.Pkg.Path() != ingressPath {
+			return false
+		}
+		r := cf.Signature.Results()
+		return r.Len() == 2 && types.Identical(r.At(1).Type(), types.Typ[types.Bool]) && strings.Contains(r.At(0).Type().String(), "map[string]string")
+	}
+	fn = p.ViewKeeping(fn, isHeaderStep)
 	name := "ingress.ServeHTTP"
 	enq := allCalls(fn, isAnyEnqueue)
 	// body read
@@ -109,14 +119,7 @@ func checkIngressRefusals(c *Ctx, rule string) {
 		oc    Outcome
 		want  int64
 	}
-	hdr := allCalls(fn, func(ci ssa.CallInstruction) bool {
-		cf := ci.Common().StaticCallee()
-		if cf == nil || cf.Pkg == nil || cf.Pkg.Pkg.Path() != ingressPath {
-			return false
-		}
-		r := cf.Signature.Results()
-		return r.Len() == 2 && types.Identical(r.At(1).Type(), types.Typ[types.Bool]) && strings.Contains(r.At(0).Type().String(), "map[string]string")
-	})
+	hdr := allCalls(fn, func(ci ssa.CallInstruction) bool { return isHeaderStep(ci.Common().StaticCallee()) })
 	refusals := []refusal{
 		{"rate-limit", allCalls(fn, func(ci ssa.CallInstruction) bool { return isFieldCall(ci, "Server", "AllowRequestFor") }), BoolTrue, 429},
 		{"body-read", readAll, ErrNil, 0},
